@@ -76,6 +76,23 @@ def check(run):
                 r = e[4]
                 if not (0 < r <= 1) and found is None:
                     found = {"kind": "input", "what": f"relaxation factor {r!r} outside (0,1]", "case": sc.describe(sps, x0, T, P)}
+            # the returned array is the caller's: a user who rescales or sorts it in place must still get a composition obeying
+            # the constraints from the next call on the unchanged object
+            if rng.random() < 0.3:
+                mine = m.calculate_composition()
+                if isinstance(mine, np.ndarray) and mine.flags.writeable:
+                    if rng.random() < 0.5:
+                        mine *= 1e-6
+                    else:
+                        mine.sort()
+                    again = np.asarray(m.calculate_composition(), dtype=float)
+                    hist["caller_mutated_returned_array"] = hist.get("caller_mutated_returned_array", 0) + 1
+                    v = violates(m, again, x0)
+                    if v is None and not np.allclose(again, nd, rtol=1e-12, atol=0.0):
+                        v = "composition changed although T, P, x0 did not"
+                    if v and found is None:
+                        found = {"kind": "history", "what": "after the caller modified the returned array in place, the next call returns: " + v,
+                                 "case": sc.describe(sps, x0, T, P)}
             # the same object after its inputs were re-assigned (a user's parameter sweep): the returned composition must obey the
             # CURRENT x0, T, P
             if rng.random() < 0.3:
